@@ -228,6 +228,9 @@ class Source:
         self.anext_calls += 1
         if self.gated:
             await self.run.gate(f"{self.key}#{self.i}")
+            opened = getattr(self.run, "gate_opened", None)
+            if opened is not None:
+                opened(f"{self.key}#{self.i}")
         if self.fail_at is not None and self.i == self.fail_at:
             self.raised = True
             raise Boom(f"source {self.key} failed")
@@ -326,6 +329,9 @@ def make_resolver(run, sync_only=False):
 
         async def later():
             await run.gate(key)
+            opened = getattr(run, "gate_opened", None)
+            if opened is not None:
+                opened(key)
             return produce()
         return later()
     return resolver
@@ -354,6 +360,9 @@ class IncRun:
         self.hook_tracked = 0
         self.pull_task = None
         self.close_task = None
+        self.armed = None
+        self.armed_fired = False
+        self.fine_stops = False
         self.closed = self.ended = self.aborted = False
         self.completed = False
         self.hang = False
@@ -434,6 +443,15 @@ class IncRun:
                 acts.append(("close",))
         if stops and self.with_signal and not self.aborted and not self.closed and not self.ended and not self.completed:
             acts.append(("abort",))
+        if stops and getattr(self, "fine_stops", False):
+            kinds = [a[0] for a in acts]
+            for a in list(acts):
+                if a[0] == "settle":
+                    for d in (0, 1):
+                        if "close" in kinds:
+                            acts.append(("settle-stop", a[1], "close", d))
+                        if "abort" in kinds:
+                            acts.append(("settle-stop", a[1], "abort", d))
         return acts
 
     async def _pull(self):
@@ -453,6 +471,27 @@ class IncRun:
     async def _close(self):
         await self.res.subsequent_results.aclose()
 
+    # -- a stop that the consumer performs in reaction to something a resolver did: it is woken in the very loop step in
+    #    which the resolver (or source) behind the armed gate resumes, i.e. BEFORE the callbacks of whatever completes as a
+    #    consequence have run (delay = further turns of the loop the consumer lets pass first)
+    def gate_opened(self, name):
+        if self.armed is not None and self.armed[0].split("~")[0] == name.split("~")[0]:
+            _g, kind, delay = self.armed
+            self.armed = None
+            self.armed_fired = True
+            self.close_task = self.loop.create_task(self._armed_stop(kind, delay))
+
+    async def _armed_stop(self, kind, delay):
+        for _ in range(delay):
+            await asyncio.sleep(0)
+        if kind == "close":
+            if self.res is not None and hasattr(self.res, "subsequent_results") and not self.ended:
+                self.closed = True
+                await self.res.subsequent_results.aclose()
+        elif not self.ended and not self.completed:
+            self.aborted = True
+            self.ctl.abort(Boom("stop"))
+
     def do(self, act):
         k = act[0]
         if k == "settle":
@@ -468,7 +507,14 @@ class IncRun:
         elif k == "abort":
             self.aborted = True
             self.ctl.abort(Boom("stop"))
+        elif k == "settle-stop":
+            f = self.gates.get(act[1])
+            if f is None or f.done():
+                return False
+            self.armed = (act[1], act[2], act[3])
+            f.set_result(None)
         self._quiesce()
+        self.armed = None
         return True
 
     def drain(self, rng=None, limit=500):
